@@ -32,7 +32,7 @@ def run(ctx):
     module, sides, kinds = SPEC[ctx.prop]
     check_obligations(ctx, module)
     n, with_matrix = sizes(ctx.tier)
-    texts = pipeline.gen_inputs(ctx.seed, n, "safe", with_matrix)
+    texts = pipeline.gen_inputs(ctx.seed, n, "codec", with_matrix)
     results = pipeline.run_pipeline(texts, "codec-%s-%d" % (ctx.tier, ctx.seed))
     programs = 0
     accepted = 0
